@@ -97,9 +97,9 @@ func NewMonitors() *Monitors {
 // alsoViolates: an observation made by one property's monitor that contradicts the statement of
 // another property as well is reported under both.
 var alsoViolates = map[string][][2]string{
-	"C13/other-sub":                   {{"C02", "seek-other-sub"}},          // subscription independence
-	"C06/after-done":                  {{"C03", "dead-lettered-after-ack"}}, // an acknowledged message is never handed out again
-	"C13/snapshot-not-restored":       {{"C01", "lost-by-seek"}},            // a never-acknowledged delivery was retired
+	"C13/other-sub":                   {{"C02", "seek-other-sub"}, {"C14", "seek-touched-other-sub"}}, // subscription independence; its rows' retention is its own
+	"C06/after-done":                  {{"C03", "dead-lettered-after-ack"}},                           // an acknowledged message is never handed out again
+	"C13/snapshot-not-restored":       {{"C01", "lost-by-seek"}},                                      // a never-acknowledged delivery was retired
 	"C13/not-restored":                {{"C01", "lost-by-seek"}},
 	"C13/snapshot-later-not-restored": {{"C01", "lost-by-seek"}},
 	"C13/restore-times":               {{"C14", "retention-not-restarted"}},
